@@ -96,6 +96,8 @@ QUICK_ENTRIES = [
     "expr_rank1",             # expression with argument, coefficient, constant
     "expr_facet",             # expression on facets with geometry tables
     "c12_sumfact_hex",        # local: sum factorisation (other-options history: sum_factorization off first)
+    "c12_macro_iso",          # local: macro element (rule depends on the polyset type; P1 forms of equal degree compiled first)
+    "c12_expr_parent_facet_mesh", "c12_expr_two_meshes_same_cel", "c12_expr_three_meshes",  # local: expressions over several meshes
     "c12_mixed_dim_geometry", # local: two meshes (triangle + interval) -> one geometry quantity on two cell names
     "c12_index_order",        # local: + the same form with its free indices created in another order
     "c12_coef_order",         # local: + the same form with its coefficients/arguments created in another order
@@ -113,7 +115,7 @@ SELFTEST_JOBS = [
 ARMED_KEYS = ["hashseed:section-inputs-comment-order", "hashseed:section-outputs-comment-order",
               "hashseed:FE-table-numbering", "hashseed:geometry-table-order", "history:J-symbol-ufl_id"]
 VARIANT_ENTRIES = ("c12_index_order", "c12_coef_order")
-OTHER_FORMS_FIRST = ["ext_facet_quad", "stokes_mixed", "expr_tensor"]   # compiled before the target in `others-first`
+OTHER_FORMS_FIRST = ["ext_facet_quad", "stokes_mixed", "expr_tensor", "mass_tri_p1", "int_facet_tri"]   # compiled before the target in `others-first`
 
 
 def _local_entries():
@@ -194,15 +196,31 @@ def _local_entries():
         n = ufl.FacetNormal(Vd)
         return [ufl.CellVolume(Vd) * ufl.CellVolume(Wd) * ufl.inner(f * g * ufl.grad(u), n * q) * ds]
 
+    def macro_iso():
+        # macro (iso) element: the quadrature rule depends on the polyset type of the elements, not only on
+        # (cell, degree, scheme) -- compiled after P1 forms of the same cell/degree in the `others-first` history
+        m = corpus.mesh("triangle")
+        V = ufl.FunctionSpace(m, basix.ufl.element("iso", "triangle", 1))
+        u, v = ufl.TrialFunction(V), ufl.TestFunction(V)
+        f = ufl.Coefficient(V)
+        return [ufl.inner(u, v) * ufl.dx, f * v * ufl.dx + f("+") * v("-") * ufl.dS]
+
     _VARIANTS["c12_index_order"] = index_order(1)
     _VARIANTS["c12_coef_order"] = coef_order(1)
     return [
         corpus.Entry("c12_mixed3_coefs", mixed3, tags=("cell", "mixed")),
         corpus.Entry("c12_sumfact_hex", sumfact, tags=("cell", "sumfact"), options={"sum_factorization": True}),
         corpus.Entry("c12_mixed_dim_geometry", mixed_dim_geometry, tags=("facet", "mixed-dim")),
+        corpus.Entry("c12_macro_iso", macro_iso, tags=("cell", "interior", "macro")),
+        *[corpus.Entry(e.name.replace("c13_", "c12_"), e.build, kind="expression") for e in _multi_mesh_expressions()],
         corpus.Entry("c12_index_order", index_order(0), tags=("cell", "variant")),
         corpus.Entry("c12_coef_order", coef_order(0), tags=("cell", "facet", "variant")),
     ]
+
+
+def _multi_mesh_expressions():
+    from harness.props import c13
+    return c13.local_entries()
 
 
 _VARIANTS = {}   # entry name -> builder of an equal-signature variant (filled by _local_entries)
@@ -228,7 +246,9 @@ def _unrelated_objects():
     import ufl
     from harness import corpus
     keep = []
-    for cell, gdeg in (("triangle", 1), ("tetrahedron", 1), ("quadrilateral", 2), ("interval", 1), ("triangle", 2)):
+    # nine meshes: the ids of the meshes created afterwards cross a power of ten (9 | 10)
+    for cell, gdeg in (("triangle", 1), ("tetrahedron", 1), ("quadrilateral", 2), ("interval", 1), ("triangle", 2),
+                       ("triangle", 1), ("hexahedron", 1), ("interval", 1), ("tetrahedron", 1)):
         m = corpus.mesh(cell, gdeg)
         V = ufl.FunctionSpace(m, basix.ufl.element("P", cell, 2))
         u, v = ufl.TrialFunction(V), ufl.TestFunction(V)
